@@ -314,8 +314,9 @@ example : InLine ⟨2, 3, 2, 7, false⟩ "  0 [+1] UInt x".toList := by
 
 /-- **`_find_in_dirs_and_read` never raises on file-system faults.**  When opening the file
 fails in a directory with an `OSError` (missing, directory, path through a file, name too
-long, permission, symlink loop …) or a `UnicodeError`, the search goes on; the result is the
-text of the first directory where the file can be read (every earlier directory failed), or
+long, permission, symlink loop …), a `UnicodeError`, or any other `ValueError` (`open()`
+rejecting the name itself: "embedded null byte" — caught since 9d2590a), the search goes on; the
+result is the text of the first directory where the file can be read (every earlier directory failed), or
 `(None, errors)` with one detail per directory plus the import path — a non-empty list, so
 `glue.parse_module` takes its "Unable to read file." branch. -/
 theorem C16_find_and_read_total (probes : List (Text × Probe))
@@ -342,6 +343,13 @@ file in the third. -/
 example : findAndRead [("a".toList, .osError "Is a directory".toList),
       ("b".toList, .unicodeError "invalid start byte".toList), ("c".toList, .text ['x'])] =
     .found ['x'] := by decide
+
+/-- A file name with an embedded NUL: `open()` raises a plain `ValueError` in every directory;
+reported as unreadable (one detail per directory + the import path), not raised. -/
+example : findAndRead [("a".toList, .valueError "embedded null byte".toList),
+      ("b".toList, .valueError "embedded null byte".toList)] =
+    .notFound ["embedded null byte".toList, "embedded null byte".toList, "import path a:b".toList] := by
+  decide
 
 /-- The seeded narrowing `except FileNotFoundError` is the situation `otherError`: with a
 class of failure that is not caught the call raises. -/
